@@ -184,10 +184,45 @@ class SpyMiddleware:
             )
 
 
+class _LoopWallClock:
+    """What `time` means inside nauyaca.server.protocol while a callback runs on a VirtualLoop: the wall clock
+    moves with the loop's virtual clock (as a real machine's clocks move together) instead of standing still for
+    thousands of virtual seconds.  Outside a virtual loop it is the real `time` module."""
+
+    BASE = 1_700_000_000.0
+
+    def _vloop(self):
+        try:
+            loop = asyncio.get_running_loop()
+        except RuntimeError:
+            return None
+        return loop if isinstance(loop, VirtualLoop) else None
+
+    def time(self):
+        import time as _t
+
+        loop = self._vloop()
+        return _t.time() if loop is None else self.BASE + loop.time()
+
+    def __getattr__(self, name):
+        import time as _t
+
+        return getattr(_t, name)
+
+
+def install_loop_wall_clock():
+    """Idempotent; checks that need a steppable clock (C15) or exact control (C10) replace it for their own runs."""
+    from nauyaca.server import protocol as P
+
+    if not isinstance(P.time, _LoopWallClock) and getattr(P.time, "__name__", "") == "time":
+        P.time = _LoopWallClock()
+
+
 class ServerSim:
     """One connection to a real GeminiServerProtocol."""
 
     def __init__(self, protocol_factory, peername=("192.0.2.7", 40001), peercert_der=None, loop=None, log=None):
+        install_loop_wall_clock()
         self.own_loop = loop is None
         self.loop: VirtualLoop = loop or new_loop()
         self.log = log if log is not None else []
